@@ -409,3 +409,662 @@ Proof.
     + intros j. rewrite (ci_get_dabs n s C). symmetry. apply (clamph_id _ _ _ (maxI s)); try lia.
       intros k Hk. apply (ci_out n s C). lia.
 Qed.
+
+(* ================================================================== *)
+(* Part 3: the lowest-collapsing store                                 *)
+(* ================================================================== *)
+
+Ltac cproj := cbn [with_range with_offset with_bins with_count with_collapsed bins offset minI maxI count lim collapsed].
+Tactic Notation "cproj" "in" hyp(H) := cbn [with_range with_offset with_bins with_count with_collapsed bins offset minI maxI count lim collapsed] in H.
+Ltac cred := unfold len, dget;
+  cbn [with_range with_offset with_bins with_count with_collapsed bins offset minI maxI count lim collapsed].
+
+Lemma rsum_from_low f m a b : (forall i, a <= i < m -> f i = w0) -> a <= m -> rsum f a b = rsum f m b.
+Proof.
+  intros Hz Ha. destruct (Z_le_dec m (b + 1)) as [L|G].
+  - apply rsum_drop_low; try lia. intros; apply Hz; lia.
+  - rewrite (rsum_nil f m b) by lia. apply rsum_zero. intros; apply Hz; lia.
+Qed.
+Lemma rsum_to_high f m a b : (forall i, m < i <= b -> f i = w0) -> m <= b -> rsum f a b = rsum f a m.
+Proof.
+  intros Hz Hb. destruct (Z_le_dec a (m + 1)) as [L|G].
+  - apply rsum_drop_high; try lia. intros; apply Hz; lia.
+  - rewrite (rsum_nil f a m) by lia. apply rsum_zero. intros; apply Hz; lia.
+Qed.
+
+Lemma sum_range_spec s a b :
+  (b < a \/ (offset s <= a /\ b < offset s + len s)) -> sum_range s a b = Some (rsum (dget s) a b).
+Proof.
+  intros H. unfold sum_range. destruct (Z.ltb_spec b a) as [L|L]; [now rewrite rsum_nil|].
+  assert (Hb : in_bounds s (a - offset s) && in_bounds s (b - offset s) = true) by (unfold in_bounds; lia).
+  rewrite Hb. f_equal. rewrite sumW_slice_rsum by (unfold len in *; lia).
+  rewrite <- (rsum_shift (at_ (bins s)) (offset s)).
+  replace (a - offset s + offset s) with a by lia.
+  replace (a - offset s + (b - a + 1) - 1 + offset s) with b by lia. reflexivity.
+Qed.
+Lemma reset_bins_spec s a b :
+  (b < a \/ (offset s <= a /\ b < offset s + len s)) ->
+  reset_bins s a b = Some (with_bins s (reset (bins s) (a - offset s) (b - offset s))).
+Proof. intros H. unfold reset_bins. destruct (_ && _) eqn:E; [lia|reflexivity]. Qed.
+Lemma dget_reset s a b i :
+  (b < a \/ (offset s <= a /\ b < offset s + len s)) ->
+  dget (with_bins s (reset (bins s) (a - offset s) (b - offset s))) i =
+  if (a <=? i) && (i <=? b) then w0 else dget s i.
+Proof.
+  intros H. unfold dget. cbn [with_bins bins offset]. destruct (Z_lt_dec b a) as [L|L].
+  - unfold reset, map_range. destruct (Z.ltb_spec (b - offset s) (a - offset s)); [|lia].
+    destruct (_ && _) eqn:E; [lia|reflexivity].
+  - rewrite at_reset by (unfold len in *; lia).
+    destruct ((a - offset s <=? i - offset s) && (i - offset s <=? b - offset s)) eqn:E1;
+      destruct ((a <=? i) && (i <=? b)) eqn:E2; try reflexivity; lia.
+Qed.
+
+Lemma adjust_lowest_collapse s lo hi :
+  count s <> w0 ->
+  (forall i, i < minI s \/ maxI s < i -> dget s i = w0) ->
+  count s = rsum (dget s) (minI s) (maxI s) ->
+  offset s <= minI s -> minI s <= maxI s -> maxI s < offset s + len s ->
+  lo <= minI s -> maxI s <= hi -> len s < hi - lo + 1 ->
+  exists s', adjust_lowest true s lo hi = Some s' /\
+    (forall j, dget s' j = clampf (dget s) lo (hi - len s + 1) j) /\
+    len s' = len s /\ offset s' = hi - len s + 1 /\ minI s' = hi - len s + 1 /\ maxI s' = hi /\
+    count s' = count s /\ lim s' = lim s /\ collapsed s' = true.
+Proof.
+  intros N Hout Hcnt W1 W2 W3 Hlo Hhi Hlen. unfold adjust_lowest.
+  destruct (Z.ltb_spec (len s) (hi - lo + 1)) as [_|X]; [|lia]. cbv zeta.
+  remember (hi - len s + 1) as e eqn:Ee.
+  assert (Em : is_empty s = false) by now apply is_empty_false. rewrite Em. cbn [andb]. rewrite Bool.orb_false_r.
+  destruct (Z.leb_spec (maxI s) e) as [B1|B1].
+  - (* a single bucket *)
+    destruct (Z.eqb_spec (len s) 0) as [Z0|_]; [lia|]. eexists. split; [reflexivity|].
+    split; [|cred; rewrite zlen_setw, zlen_zeros; unfold len in *; repeat split; try reflexivity; lia].
+    intros j. unfold dget at 1. cbn [with_range with_offset with_bins with_collapsed bins offset].
+    rewrite at_setw by (rewrite zlen_zeros; unfold len in *; lia). rewrite at_zeros.
+    unfold clampf. destruct (Z.ltb_spec j e) as [L|L].
+    + destruct (Z.eqb_spec (j - e) 0); [lia|reflexivity].
+    + destruct (Z.eqb_spec j e) as [->|Nj].
+      * rewrite Z.sub_diag. cbn [Z.eqb]. rewrite Hcnt.
+        rewrite (rsum_drop_low (dget s) (minI s) lo e) by (try lia; intros; apply Hout; lia).
+        symmetry. apply rsum_drop_high; try lia. intros; apply Hout; lia.
+      * destruct (Z.eqb_spec (j - e) 0); [lia|]. symmetry. apply Hout. lia.
+  - destruct (Z.ltb_spec (offset s - e) 0) as [B2|B2].
+    + (* collapse the buckets below e, then shift left *)
+      rewrite sum_range_spec by lia. rewrite reset_bins_spec by lia.
+      set (s1 := with_bins s (reset (bins s) (minI s - offset s) (e - 1 - offset s))).
+      assert (Hl1 : len s1 = len s) by (unfold s1, len; cbn [with_bins bins]; apply zlen_reset).
+      assert (Ho1 : offset s1 = offset s) by reflexivity.
+      assert (Hb : in_bounds s1 (e - offset s1) = true) by (unfold in_bounds; rewrite Hl1, Ho1; lia).
+      rewrite Hb.
+      set (nn := rsum (dget s) (minI s) (e - 1)).
+      set (s2 := with_range (with_bins s1 (upd (bins s1) (e - offset s1) nn)) e (maxI s1)).
+      assert (Hd2 : forall i, dget s2 i = if i <? e then w0 else if i =? e then wadd (dget s e) nn else dget s i).
+      { intros i. unfold s2, dget. cbn [with_range with_bins bins offset].
+        rewrite at_upd by (unfold in_bounds, len in Hb; lia).
+        change (at_ (bins s1) (i - offset s1)) with (dget s1 i). unfold s1. rewrite dget_reset by lia.
+        cbn [with_bins offset].
+        destruct (Z.eqb_spec (i - offset s) (e - offset s)) as [E1|E1].
+        - assert (i = e) by lia. subst i. destruct (Z.ltb_spec e e); [lia|]. rewrite Z.eqb_refl.
+          destruct ((minI s <=? e) && (e <=? e - 1)) eqn:E2; [lia|reflexivity].
+        - destruct (Z.eqb_spec i e); [lia|]. destruct (Z.ltb_spec i e) as [L|L].
+          + destruct ((minI s <=? i) && (i <=? e - 1)) eqn:E2; [reflexivity|]. apply Hout. lia.
+          + destruct ((minI s <=? i) && (i <=? e - 1)) eqn:E2; [lia|reflexivity]. }
+      assert (Hl2 : len s2 = len s) by (unfold s2, len; cbn [with_range with_bins bins]; rewrite zlen_upd; exact Hl1).
+      destruct (shift_counts_spec s2 (offset s - e)) as (s3 & E3 & Hd3 & Hl3 & Ho3 & Hmi3 & Hma3 & Hc3 & Hk3).
+      { unfold s2, s1. cproj. lia. }
+      { unfold s2, s1. cproj. lia. }
+      { rewrite Hl2. unfold s2, s1. cproj. lia. }
+      { intros i Hi. rewrite Hd2. unfold s2, s1 in Hi. cproj. cbn [with_range with_bins minI maxI] in Hi.
+        destruct (Z.ltb_spec i e); [reflexivity|]. destruct (Z.eqb_spec i e); [lia|]. apply Hout. lia. }
+      { unfold s2, s1. cproj. lia. }
+      { rewrite Hl2. unfold s2, s1. cproj. lia. }
+      rewrite E3. eexists. split; [reflexivity|].
+      unfold s2, s1 in Ho3, Hmi3, Hma3, Hc3, Hk3. cproj in Ho3. cproj in Hmi3. cproj in Hma3. cproj in Hc3. cproj in Hk3.
+      split; [|unfold len in *; cproj; repeat split; try assumption; lia].
+      intros j. unfold dget at 1. cproj. fold (dget s3 j). rewrite Hd3, Hd2. unfold clampf.
+      destruct (Z.ltb_spec j e); [reflexivity|]. destruct (Z.eqb_spec j e) as [->|Nj]; [|reflexivity].
+      rewrite (rsum_split (dget s) lo (e - 1) e) by lia. replace (e - 1 + 1) with e by lia. rewrite rsum_one.
+      unfold nn. rewrite (rsum_from_low (dget s) (minI s) lo (e - 1)) by (try lia; intros; apply Hout; lia).
+      apply wadd_comm.
+    + (* shift right, nothing to fold *)
+      destruct (shift_counts_spec s (offset s - e)) as (s3 & E3 & Hd3 & Hl3 & Ho3 & Hmi3 & Hma3 & Hc3 & Hk3);
+        try assumption; try lia.
+      rewrite E3. eexists. split; [reflexivity|].
+      split; [|unfold len in *; cproj; repeat split; try assumption; lia].
+      intros j. unfold dget at 1. cproj. fold (dget s3 j). rewrite Hd3. symmetry. apply (clampf_id _ _ _ (minI s)); try lia.
+      intros k Hk. apply Hout. lia.
+Qed.
+
+Lemma zlen_0_nil {A} (l : list A) : zlen l = 0 -> l = [].
+Proof. destruct l; [reflexivity|]. rewrite zlen_cons. pose proof (zlen_nonneg l). lia. Qed.
+Lemma clampf_zero F lo e j : (forall k, F k = w0) -> clampf F lo e j = w0.
+Proof. intros H. unfold clampf. destruct (j <? e); [reflexivity|]. destruct (j =? e); [|apply H]. apply rsum_zero. intros; apply H. Qed.
+Lemma clamph_zero F hi e j : (forall k, F k = w0) -> clamph F hi e j = w0.
+Proof. intros H. unfold clamph. destruct (e <? j); [reflexivity|]. destruct (j =? e); [|apply H]. apply rsum_zero. intros; apply H. Qed.
+
+(* what extendRange establishes for the lowest-collapsing store: the content is clamped at
+   e = (new max) - n + 1, the window is [max mn e, mx] and lies inside the array *)
+Definition lext_post (n : Z) (s : dense) (lo hi : Z) (s1 : dense) : Prop :=
+  let mn := Z.min lo (minI s) in let mx := Z.max hi (maxI s) in let e := mx - n + 1 in
+  (forall j, dget s1 j = clampf (dget s) mn e j) /\ count s1 = count s /\ lim s1 = lim s /\
+  minI s1 = Z.max mn e /\ maxI s1 = mx /\ offset s1 <= minI s1 /\ maxI s1 < offset s1 + len s1 /\
+  len s1 <= n /\
+  (collapsed s1 = true -> len s1 = n /\ offset s1 = minI s1 /\ maxI s1 = minI s1 + n - 1) /\
+  (collapsed s1 = false -> e <= mn).
+
+Section LowOps.
+Variable grow : Z -> Z.
+Hypothesis grow_ge : forall d, d <= grow d.
+Variable n : Z.
+Hypothesis Hn : 1 <= n.
+
+Lemma extend_range_low s lo hi :
+  CI n s -> lim s = Lowest n -> lo <= hi -> idx_ok lo -> idx_ok hi ->
+  exists s1, extend_range grow true s lo hi = Some s1 /\ lext_post n s lo hi s1.
+Proof.
+  intros C Hk Hlh Il Ih. unfold extend_range, get_new_length, adjust, lext_post. cbv zeta.
+  remember (Z.min lo (minI s)) as mn eqn:Emn. remember (Z.max hi (maxI s)) as mx eqn:Emx.
+  pose proof (grow_ge (mx - mn + 1)) as Hg. pose proof (ci_len n s C) as Hlen.
+  destruct (is_empty s) eqn:Hem.
+  - (* empty receiver: allocate, then adjust *)
+    apply is_empty_true in Hem. destruct (ci_sentinel n s C Hem) as [E1 E2].
+    destruct (ci_empty n s C Hem) as [L0 Cf].
+    assert (Hmn : mn = lo) by (unfold idx_ok, MaxInt32, MinInt32 in *; lia).
+    assert (Hmx : mx = hi) by (unfold idx_ok, MaxInt32, MinInt32 in *; lia).
+    assert (Hb0 : bins s = []) by (apply zlen_0_nil; exact L0).
+    cproj. rewrite Hk, Hb0. cbn [app].
+    set (n' := Z.min (grow (mx - mn + 1)) n).
+    set (s0 := with_range (with_offset (with_bins s (zeros n')) mn) mn mx).
+    assert (Hl0 : len s0 = n') by (unfold s0, len; cproj; rewrite zlen_zeros; lia).
+    assert (Hz0 : forall j, dget s0 j = w0) by (intros j; unfold s0, dget; cproj; apply at_zeros).
+    assert (Hzs : forall j, dget s j = w0) by (apply (ci_all_zero n s C Hem)).
+    unfold adjust_lowest. rewrite Hl0. destruct (Z.ltb_spec n' (mx - mn + 1)) as [Bc|Bc].
+    + (* wider than the capacity: one (empty) bucket, collapsed *)
+      assert (En' : n' = n) by lia. cbv zeta.
+      assert (Em0 : is_empty s0 = true) by (apply is_empty_true; exact Hem).
+      rewrite Em0. cbn [andb]. rewrite Bool.orb_true_r.
+      destruct (Z.eqb_spec n' 0) as [Z0|_]; [lia|]. eexists. split; [reflexivity|].
+      split.
+      { intros j. unfold dget at 1. unfold s0. cproj. rewrite Hem.
+        rewrite at_setw by (rewrite zlen_zeros; lia). rewrite at_zeros, clampf_zero by exact Hzs.
+        now destruct (_ =? _). }
+      unfold len, s0. cproj. rewrite zlen_setw, zlen_zeros.
+      repeat split; try reflexivity; try exact Hk; try discriminate; lia.
+    + destruct (center_counts_spec s0 mn mx) as (s' & E & Hd & Hl & Hmi & Hma & Hc & Hk' & Ho1 & Ho2);
+        try (unfold s0; cproj; lia); try (rewrite Hl0; unfold s0; cproj; lia).
+      { intros i _. apply Hz0. }
+      rewrite E. exists s'. split; [reflexivity|].
+      apply center_counts_collapsed in E.
+      split. { intros j. rewrite Hd, Hz0, clampf_zero by exact Hzs. reflexivity. }
+      unfold s0 in Hc, Hk', E. cproj in Hc. cproj in Hk'. cproj in E.
+      repeat split; try assumption; try lia; try congruence.
+  - (* non-empty receiver *)
+    apply is_empty_false in Hem. destruct (ci_win n s C Hem) as (W1 & W2 & W3).
+    destruct ((offset s <=? mn) && (mx <? offset s + len s)) eqn:Efit.
+    + (* the range fits in the array *)
+      eexists. split; [reflexivity|].
+      split.
+      { intros j. unfold dget at 1. cproj. fold (dget s j). symmetry.
+        apply (clampf_id _ _ _ (minI s)); try lia. intros k Hk'. apply (ci_out n s C). lia. }
+      unfold len in *. cproj. repeat split; try reflexivity; try lia.
+      all: match goal with X : collapsed _ = true |- _ => destruct (ci_coll n s C X) as (Y1 & Y2 & Y3) end; unfold len in *; lia.
+    + rewrite Hk.
+      set (n' := Z.min (grow (mx - mn + 1)) n).
+      set (s0 := if len s <? n' then with_bins s (bins s ++ zeros (n' - len s)) else s).
+      assert (Hs0 : (forall i, dget s0 i = dget s i) /\ offset s0 = offset s /\ minI s0 = minI s /\
+                    maxI s0 = maxI s /\ count s0 = count s /\ lim s0 = lim s /\ collapsed s0 = collapsed s /\
+                    len s <= len s0 /\ n' <= len s0 /\ len s0 <= n).
+      { unfold s0. destruct (Z.ltb_spec (len s) n') as [L|L].
+        - unfold dget, len. cproj. repeat split; auto.
+          + intros i. apply at_app_zeros.
+          + rewrite zlen_app. pose proof (zlen_nonneg (zeros (n' - zlen (bins s)))). lia.
+          + rewrite zlen_app, zlen_zeros. unfold len in L. lia.
+          + rewrite zlen_app, zlen_zeros. unfold len in L. lia.
+        - repeat split; auto; lia. }
+      destruct Hs0 as (Hd0 & Ho0 & Hmi0 & Hma0 & Hc0 & Hk0 & Hcl0 & Hl0a & Hl0b & Hl0c).
+      assert (Hlim0 : lim s0 = Lowest n) by congruence. rewrite Hlim0.
+      destruct (Z_lt_dec (len s0) (mx - mn + 1)) as [Bc|Bc].
+      * (* wider than the array: collapse; the array then has the full capacity *)
+        assert (Eln : len s0 = n) by lia.
+        destruct (adjust_lowest_collapse s0 mn mx) as (s' & E & Hd & Hl & Ho & Hmi & Hma & Hc & Hk' & Hcl);
+          try lia; try congruence.
+        { intros i Hi. rewrite Hd0. apply (ci_out n s C). lia. }
+        { rewrite Hc0, Hmi0, Hma0, (ci_count n s C). apply rsum_ext. intros; symmetry; apply Hd0. }
+        rewrite E. exists s'. split; [reflexivity|].
+        split. { intros j. rewrite Hd, Eln. apply clampf_ext. exact Hd0. }
+        repeat split; try lia; try congruence.
+      * (* the array is wide enough: recentre *)
+        unfold adjust_lowest. destruct (Z.ltb_spec (len s0) (mx - mn + 1)) as [X|_]; [lia|].
+        destruct (center_counts_spec s0 mn mx) as (s' & E & Hd & Hl & Hmi & Hma & Hc & Hk' & Ho1 & Ho2); try lia.
+        { intros i Hi. rewrite Hd0. apply (ci_out n s C). lia. }
+        rewrite E. exists s'. split; [reflexivity|]. apply center_counts_collapsed in E.
+        split.
+        { intros j. rewrite Hd, Hd0. symmetry.
+          apply (clampf_id _ _ _ (minI s)); try lia. intros k Hk''. apply (ci_out n s C). lia. }
+        repeat split; try lia; try congruence.
+        all: match goal with X : collapsed _ = true |- _ => rewrite E, Hcl0 in X; destruct (ci_coll n s C X) as (Y1 & Y2 & Y3) end; lia.
+Qed.
+End LowOps.
+
+(* the common shape of add and merge for the lowest-collapsing store: the content grows by a
+   non-negative g supported on [lo, hi], positive at both ends, and the sum is clamped *)
+Lemma CI_combine_low n s s2 (g : Z -> W) lo hi :
+  1 <= n -> CI n s -> lo <= hi -> idx_ok lo -> idx_ok hi ->
+  (forall i, (w0 <= g i)%Qc) -> (forall i, i < lo \/ hi < i -> g i = w0) ->
+  (w0 < g lo)%Qc -> (w0 < g hi)%Qc ->
+  let mn := Z.min lo (minI s) in let mx := Z.max hi (maxI s) in let e := mx - n + 1 in
+  let F := fun j => wadd (dget s j) (g j) in
+  (forall j, dget s2 j = clampf F mn e j) ->
+  count s2 = wadd (count s) (rsum g lo hi) ->
+  minI s2 = Z.max mn e -> maxI s2 = mx -> offset s2 <= minI s2 -> maxI s2 < offset s2 + len s2 ->
+  len s2 <= n ->
+  (collapsed s2 = true -> len s2 = n /\ offset s2 = minI s2 /\ maxI s2 = minI s2 + n - 1) ->
+  CI n s2 /\ (forall j, get (dabs s2) j = clampf F mn e j) /\
+  F mx <> w0 /\ (forall k, mx < k -> F k = w0) /\ (forall k, k < mn -> F k = w0).
+Proof.
+  intros Hn C Hlh Il Ih Gn Go Gl Gh mn mx e F Hd Hc Hmi Hma Ho1 Ho2 Hlen Hcoll.
+  pose proof (ci_count_nonneg n s C) as Cn.
+  pose proof (rsum_pos g lo hi Hlh Gn Gl) as Rp.
+  assert (Cnz : count s2 <> w0) by (rewrite Hc; apply wlt_neq; now apply wadd_pos_r).
+  assert (Fn : forall k, (w0 <= F k)%Qc) by (intros k; apply wadd_nonneg; [apply (ci_nonneg n s C)|apply Gn]).
+  assert (Hends : (count s = w0 /\ mn = lo /\ mx = hi) \/
+                  (count s <> w0 /\ minI s <= maxI s /\ idx_ok (minI s) /\ idx_ok (maxI s))).
+  { destruct (w_eq_dec (count s) w0) as [E|N].
+    - left. destruct (ci_sentinel n s C E) as [E1 E2]. unfold mn, mx. rewrite E1, E2.
+      unfold idx_ok, MaxInt32, MinInt32 in *. repeat split; auto; lia.
+    - right. destruct (ci_win n s C N) as (_ & W & _). destruct (ci_idx n s C N). auto. }
+  assert (Hmm : mn <= mx) by (unfold mn, mx; lia).
+  assert (Hemx : e <= mx) by (unfold e; lia).
+  assert (Fout : forall k, k < mn \/ mx < k -> F k = w0).
+  { intros k Hk. unfold F. rewrite (ci_out n s C k), (Go k) by (unfold mn, mx in Hk; lia). apply wadd_0_l. }
+  assert (Fmn : (w0 < F mn)%Qc).
+  { unfold F. destruct Hends as [(E & E1 & E2)|(N & W & _)].
+    - rewrite E1. apply wadd_pos_r; [apply (ci_nonneg n s C)|exact Gl].
+    - destruct (Z_le_dec lo (minI s)) as [L|L].
+      + replace mn with lo by (unfold mn; lia). apply wadd_pos_r; [apply (ci_nonneg n s C)|exact Gl].
+      + replace mn with (minI s) by (unfold mn; lia). apply wadd_pos_l; [apply (ci_ends n s C N)|apply Gn]. }
+  assert (Fmx : (w0 < F mx)%Qc).
+  { unfold F. destruct Hends as [(E & E1 & E2)|(N & W & _)].
+    - rewrite E2. apply wadd_pos_r; [apply (ci_nonneg n s C)|exact Gh].
+    - destruct (Z_le_dec (maxI s) hi) as [L|L].
+      + replace mx with hi by (unfold mx; lia). apply wadd_pos_r; [apply (ci_nonneg n s C)|exact Gh].
+      + replace mx with (maxI s) by (unfold mx; lia). apply wadd_pos_l; [apply (ci_ends n s C N)|apply Gn]. }
+  assert (I2 : Inv (as_exact s2)).
+  { constructor.
+    - reflexivity.
+    - intros i. change (dget (as_exact s2) i) with (dget s2 i). rewrite Hd. now apply clampf_nonneg.
+    - intros i Hi. change (dget (as_exact s2) i) with (dget s2 i). cbn [as_exact minI maxI] in Hi.
+      rewrite Hd. apply (clampf_out F mn e mx); [exact Fout|exact Hemx|lia].
+    - cbn [as_exact count minI maxI]. change (dget (as_exact s2)) with (dget s2).
+      rewrite (rsum_ext (dget s2) (clampf F mn e)) by (intros; apply Hd).
+      rewrite Hmi, Hma, rsum_clampf by assumption. rewrite Hc. unfold F. rewrite rsum_add. f_equal.
+      + rewrite (ci_count n s C). symmetry.
+        destruct Hends as [(E & E1 & E2)|(N & W & _)].
+        * rewrite (rsum_zero (dget s) mn mx) by (intros; now apply (ci_all_zero n s C)).
+          symmetry. apply rsum_zero. intros; now apply (ci_all_zero n s C).
+        * apply rsum_widen; [apply (ci_out n s C)| | |]; unfold mn, mx; lia.
+      + symmetry. apply rsum_widen; [exact Go| | |]; unfold mn, mx; lia.
+    - intros E. contradiction.
+    - intros _. cbn [as_exact offset minI maxI]. change (len (as_exact s2)) with (len s2). lia.
+    - intros _. cbn [as_exact minI maxI]. change (dget (as_exact s2)) with (dget s2). rewrite !Hd, Hmi, Hma. split.
+      + unfold clampf. destruct (Z.ltb_spec (Z.max mn e) e); [lia|].
+        destruct (Z.eqb_spec (Z.max mn e) e) as [Ee|Ne].
+        * apply (rsum_pos_at F mn e mn); [exact Fn|lia|exact Fmn].
+        * replace (Z.max mn e) with mn by lia. exact Fmn.
+      + unfold clampf. destruct (Z.ltb_spec mx e); [lia|].
+        destruct (Z.eqb_spec mx e) as [Ee|Ne]; [|exact Fmx].
+        apply (rsum_pos_at F mn e mx); [exact Fn|lia|exact Fmx].
+    - intros _. cbn [as_exact minI maxI]. rewrite Hmi, Hma.
+      assert (idx_ok mn /\ idx_ok mx).
+      { destruct Hends as [(E & E1 & E2)|(N & W & J1 & J2)].
+        - rewrite E1, E2. now split.
+        - unfold idx_ok, mn, mx in *. lia. }
+      unfold idx_ok in *. lia. }
+  assert (C2 : CI n s2).
+  { constructor; [exact I2|exact Hlen| |exact Hcoll]. intros E. contradiction. }
+  split; [exact C2|]. split; [|split; [now apply wlt_neq|split]].
+  - intros j. now rewrite (ci_get_dabs n s2 C2).
+  - intros k Hk. apply Fout. lia.
+  - intros k Hk. apply Fout. lia.
+Qed.
+
+Section LowAdd.
+Variable grow : Z -> Z.
+Hypothesis grow_ge : forall d, d <= grow d.
+Variable n : Z.
+Hypothesis Hn : 1 <= n.
+
+(* normalize: the state after the possible extension and the array slot, which is the slot of
+   index max i e (the index itself, or the collapsing edge when i lies below it) *)
+Lemma normalize_low s i :
+  CI n s -> lim s = Lowest n -> idx_ok i ->
+  exists s1, normalize grow true s i = Some (s1, Z.max i (Z.max i (maxI s) - n + 1) - offset s1) /\
+             lext_post n s i i s1.
+Proof.
+  intros C Hk Ii. unfold normalize. rewrite Hk.
+  destruct (Z.ltb_spec i (minI s)) as [B1|B1].
+  - destruct (collapsed s) eqn:Ec.
+    + (* already collapsed: slot 0 *)
+      destruct (ci_coll n s C Ec) as (Y1 & Y2 & Y3).
+      assert (N : count s <> w0) by (intros E; destruct (ci_empty n s C E); congruence).
+      destruct (ci_win n s C N) as (W1 & W2 & W3).
+      exists s. split; [do 2 f_equal; lia|]. unfold lext_post. cbv zeta.
+      split.
+      { intros j. symmetry. apply (clampf_id _ _ _ (minI s)); try lia. intros k Hk'. apply (ci_out n s C). lia. }
+      pose proof (ci_len n s C). repeat split; try lia; try congruence.
+    + destruct (extend_range_low grow grow_ge n Hn s i i C Hk (Z.le_refl i) Ii Ii) as (s1 & E1 & P).
+      rewrite E1. exists s1. split; [|exact P].
+      unfold lext_post in P. cbv zeta in P.
+      destruct P as (_ & _ & _ & Hmi & Hma & _ & _ & _ & Hct & Hcf).
+      destruct (collapsed s1) eqn:Ec1.
+      * destruct (Hct eq_refl) as (Y1 & Y2 & Y3). do 2 f_equal. lia.
+      * specialize (Hcf eq_refl). do 2 f_equal. lia.
+  - destruct (Z.ltb_spec (maxI s) i) as [B2|B2].
+    + destruct (extend_range_low grow grow_ge n Hn s i i C Hk (Z.le_refl i) Ii Ii) as (s1 & E1 & P).
+      rewrite E1. exists s1. split; [|exact P]. do 2 f_equal. clear - Hn B1 B2. lia.
+    + assert (N : count s <> w0) by (apply (ci_nonempty_iff n s C); lia).
+      destruct (ci_win n s C N) as (W1 & W2 & W3). pose proof (ci_span n s C N) as Sp.
+      pose proof (ci_len n s C) as Hl.
+      exists s. split; [do 2 f_equal; lia|].
+      unfold lext_post. cbv zeta. split.
+      { intros j. symmetry. apply (clampf_id _ _ _ (minI s)); try lia. intros k Hk'. apply (ci_out n s C). lia. }
+      repeat split; try lia.
+      all: match goal with X : collapsed _ = true |- _ => destruct (ci_coll n s C X) as (Y1 & Y2 & Y3) end; lia.
+Qed.
+
+Lemma add_with_count_zero_c fx s i : add_with_count grow fx s i w0 = Some s.
+Proof. reflexivity. Qed.
+
+(* IV: AddWithCount refines the stepwise clamp *)
+Theorem add_with_count_low s i c :
+  CI n s -> lim s = Lowest n -> idx_ok i -> (w0 < c)%Qc ->
+  exists s', add_with_count grow true s i c = Some s' /\ CI n s' /\ lim s' = Lowest n /\
+             dabs s' = sadd (Lowest n) (dabs s) i c.
+Proof.
+  intros C Hk Ii Hc. unfold add_with_count.
+  assert (Ec : weqb c w0 = false) by (apply weqb_neq; now apply wlt_neq). rewrite Ec.
+  destruct (normalize_low s i C Hk Ii) as (s1 & E & P). rewrite E.
+  unfold lext_post in P. cbv zeta in P.
+  destruct P as (Hd & Hcn & Hk1 & Hmi & Hma & Ho1 & Ho2 & Hl1 & Hct & Hcf).
+  set (mn := Z.min i (minI s)) in *. set (mx := Z.max i (maxI s)) in *. set (e := mx - n + 1) in *.
+  assert (Hb : in_bounds s1 (Z.max i e - offset s1) = true) by (unfold in_bounds; lia). rewrite Hb.
+  eexists. split; [reflexivity|].
+  match goal with |- CI n ?s2 /\ _ =>
+    destruct (CI_combine_low n s s2 (fun k => if k =? i then c else w0) i i) as (C2 & Hg & F1 & F2 & F3) end;
+    try assumption; try lia.
+  - intros k. destruct (k =? i); [now apply wlt_le|apply wle_refl].
+  - intros k Hk'. destruct (Z.eqb_spec k i); [lia|reflexivity].
+  - now rewrite Z.eqb_refl.
+  - now rewrite Z.eqb_refl.
+  - intros j. rewrite clampf_add. fold mn mx e. rewrite <- Hd, clampf_point by (unfold mn; lia).
+    unfold dget at 1. cproj. unfold in_bounds, len in Hb. rewrite at_upd by lia. fold (dget s1 j).
+    destruct (Z.eqb_spec (j - offset s1) (Z.max i e - offset s1)); destruct (Z.eqb_spec j (Z.max i e)); try lia;
+      [reflexivity|now rewrite wadd_0_r].
+  - cproj. rewrite rsum_one, Z.eqb_refl. now rewrite Hcn.
+  - unfold len. cproj. rewrite zlen_upd. exact Ho2.
+  - unfold len. cproj. rewrite zlen_upd. exact Hl1.
+  - cproj. unfold len. cproj. rewrite zlen_upd. exact Hct.
+  - split; [exact C2|]. split; [cproj; congruence|].
+    unfold sadd, norm. fold mn mx e in Hg, F1, F2, F3.
+    assert (Hb0 : badd0 (dabs s) i c = badd (dabs s) i c) by (apply badd0_nz; now apply wlt_neq).
+    rewrite Hb0.
+    apply (dabs_is_clamp_low n _ _ _ mn mx) with (5 := F2) (6 := F3); try exact F1.
+    + apply wf_badd; [apply dabs_wf|apply (ci_dabs_pos n s C)|exact Hc].
+    + apply pos_badd; [apply (ci_dabs_pos n s C)|exact Hc].
+    + intros k. rewrite BinsProofs.get_badd by apply dabs_wf. rewrite !(ci_get_dabs n s C).
+      destruct (Z.eqb_spec k i) as [->|N]; [reflexivity|now rewrite wadd_0_r].
+    + exact Hg.
+Qed.
+
+Theorem add_with_count_low0 s i c :
+  CI n s -> lim s = Lowest n -> idx_ok i -> (w0 <= c)%Qc ->
+  exists s', add_with_count grow true s i c = Some s' /\ CI n s' /\ lim s' = Lowest n /\
+             dabs s' = sadd (Lowest n) (dabs s) i c.
+Proof.
+  intros C Hk Ii Hc. destruct (weqb c w0) eqn:E.
+  - apply weqb_eq in E. subst c. exists s. split; [reflexivity|]. split; [exact C|]. split; [exact Hk|].
+    unfold sadd. rewrite badd0_zero. cbn [norm]. symmetry. now apply clamp_low_fix.
+  - apply weqb_neq in E. apply add_with_count_low; auto. now apply wpos_of_nonneg_nz.
+Qed.
+End LowAdd.
+
+(* the invariant of any member of the dense family, as an argument of MergeWith *)
+Definition WInv (o : dense) : Prop := Inv (as_exact o).
+Lemma WInv_of_Inv o : Inv o -> WInv o.
+Proof.
+  intros I. destruct I as [a b c d e f g h]. constructor; auto.
+Qed.
+Lemma WInv_of_CI n o : CI n o -> WInv o.
+Proof. apply ci_inv. Qed.
+
+Lemma dabs_bins_ok o : WInv o -> bins_ok (dabs o).
+Proof.
+  intros I k w Hi. unfold dabs in Hi. apply tab_in in Hi. destruct Hi as (Hk & -> & Hn).
+  assert (N : count o <> w0).
+  { apply (Inv_nonempty_iff _ I). cbn [as_exact minI maxI]. lia. }
+  destruct (inv_idx _ I N) as [J1 J2]. cbn [as_exact minI maxI] in J1, J2. split.
+  - unfold idx_ok in *. lia.
+  - apply (inv_nonneg _ I).
+Qed.
+Lemma nonneg_of_bins_ok l : bins_ok l -> nonneg l.
+Proof. intros H. apply Forall_forall. intros [k w] Hi. cbn [snd]. now apply (H k w). Qed.
+
+Lemma lext_post_self n s lo hi :
+  CI n s -> count s <> w0 -> minI s <= lo -> hi <= maxI s -> lext_post n s lo hi s.
+Proof.
+  intros C N H1 H2. destruct (ci_win n s C N) as (W1 & W2 & W3). pose proof (ci_span n s C N) as Sp.
+  pose proof (ci_len n s C) as Hl. unfold lext_post. cbv zeta. split.
+  { intros j. symmetry. apply (clampf_id _ _ _ (minI s)); try lia. intros k Hk'. apply (ci_out n s C). lia. }
+  repeat split; try lia.
+  all: match goal with X : collapsed _ = true |- _ => destruct (ci_coll n s C X) as (Y1 & Y2 & Y3) end; lia.
+Qed.
+
+Section LowMerge.
+Variable grow : Z -> Z.
+Hypothesis grow_ge : forall d, d <= grow d.
+Variable n : Z.
+Hypothesis Hn : 1 <= n.
+
+(* VI, same-type fast path: the argument may have any capacity, the receiver may be empty or cleared *)
+Theorem merge_same_low s o :
+  CI n s -> lim s = Lowest n -> WInv o -> count o <> w0 ->
+  exists s', merge_same grow true s o = Some s' /\ CI n s' /\ lim s' = Lowest n /\
+             dabs s' = clamp_low n (bmerge (dabs s) (dabs o)).
+Proof.
+  intros C Hk Io No. unfold merge_same.
+  destruct (inv_win _ Io No) as (V1 & V2 & V3). destruct (inv_idx _ Io No) as [J1 J2].
+  pose proof (inv_out _ Io) as Oout. pose proof (inv_nonneg _ Io) as Onn.
+  destruct (inv_ends _ Io No) as [Oe1 Oe2]. pose proof (inv_count _ Io) as Ocnt.
+  cbn [as_exact offset minI maxI count] in V1, V2, V3, J1, J2, Oout, Oe1, Oe2, Ocnt.
+  change (len (as_exact o)) with (len o) in V3. change (dget (as_exact o)) with (dget o) in *.
+  assert (Hs1 : exists s1, (if (minI o <? minI s) || (maxI s <? maxI o)
+                            then extend_range grow true s (minI o) (maxI o) else Some s) = Some s1 /\
+                           lext_post n s (minI o) (maxI o) s1).
+  { destruct ((minI o <? minI s) || (maxI s <? maxI o)) eqn:E.
+    - now apply extend_range_low.
+    - exists s. split; [reflexivity|].
+      assert (N : count s <> w0) by (apply (ci_nonempty_iff n s C); lia).
+      apply lext_post_self; auto; lia. }
+  destruct Hs1 as (s1 & E1 & P). rewrite E1.
+  unfold lext_post in P. cbv zeta in P.
+  destruct P as (Hd & Hcn & Hk1 & Hmi & Hma & Ho1 & Ho2 & Hl1 & Hct & Hcf).
+  set (mn := Z.min (minI o) (minI s)) in *. set (mx := Z.max (maxI o) (maxI s)) in *. set (e := mx - n + 1) in *.
+  destruct (Z.ltb_spec (maxI o) (minI o)) as [L|_]; [lia|].
+  assert (Hbo : in_bounds o (minI o - offset o) && in_bounds o (maxI o - offset o) = true)
+    by (unfold in_bounds; lia). rewrite Hbo. clear Hbo. cbn [negb]. rewrite Hk1, Hk. cbv beta iota zeta.
+  set (cnt := maxI o - minI o + 1).
+  set (k := Z.max 0 (Z.min cnt (minI s1 - minI o))).
+  assert (Hk0 : 0 <= k <= cnt) by (unfold k, cnt; lia).
+  rewrite (firstn_slice (bins o) (minI o - offset o) cnt k) by (unfold len, cnt in *; lia).
+  rewrite (skipn_slice (bins o) (minI o - offset o) cnt k) by (unfold len, cnt in *; lia).
+  rewrite (sumW_slice_rsum (bins o) (minI o - offset o) k) by (unfold len, cnt in *; lia).
+  rewrite <- (rsum_shift (at_ (bins o)) (offset o)).
+  replace (minI o - offset o + offset o) with (minI o) by lia.
+  replace (minI o - offset o + k - 1 + offset o) with (minI o + k - 1) by lia.
+  change (fun i => at_ (bins o) (i - offset o)) with (dget o).
+  set (S := rsum (dget o) (minI o) (minI o + k - 1)).
+  set (rest := slice (bins o) (minI o - offset o + k) (cnt - k)).
+  assert (Hzr : zlen rest = cnt - k) by (unfold rest; apply zlen_slice; unfold len, cnt in *; lia).
+  assert (Hrest : forall x, at_ rest x = if (0 <=? x) && (x <? cnt - k) then dget o (minI o + k + x) else w0).
+  { intros x. unfold rest. rewrite at_slice by lia. destruct ((0 <=? x) && (x <? cnt - k)); [|reflexivity]. unfold dget. f_equal. lia. }
+  (* when some of the argument lies below the receiver's window, the receiver is collapsed *)
+  assert (Hcol : 0 < k -> offset s1 = e /\ minI s1 = e /\ mn < e).
+  { intros Hk'. destruct (collapsed s1) eqn:Ec.
+    - destruct (Hct eq_refl) as (Y1 & Y2 & Y3). unfold k in Hk'. lia.
+    - specialize (Hcf eq_refl). unfold k in Hk'. lia. }
+  assert (HS : 0 < k -> S = rsum (dget o) mn (e - 1)).
+  { intros Hk'. destruct (Hcol Hk') as (Y1 & Y2 & Y3). unfold S.
+    rewrite (rsum_from_low (dget o) (minI o) mn (e - 1)) by (try (unfold mn; lia); intros; apply Oout; lia).
+    symmetry. apply rsum_to_high; [intros i Hi|unfold k; lia].
+    destruct (Z_lt_dec (maxI o) i); [apply Oout; lia|]. unfold k, cnt in Hi. lia. }
+  assert (Hfin : forall b2,
+            (forall j, at_ b2 (j - offset s1) = wadd (dget s1 j) (clampf (dget o) mn e j)) -> zlen b2 = len s1 ->
+            let s2 := with_count (with_bins s1 b2) (wadd (count s1) (count o)) in
+            CI n s2 /\ lim s2 = Lowest n /\ dabs s2 = clamp_low n (bmerge (dabs s) (dabs o))).
+  { intros b2 Hb2 Hz2 s2.
+    destruct (CI_combine_low n s s2 (dget o) (minI o) (maxI o)) as (C2 & Hg & F1 & F2 & F3); try assumption; try lia.
+    - intros j. rewrite clampf_add. fold mn mx e. rewrite <- Hd. unfold s2, dget at 1. cproj. apply Hb2.
+    - unfold s2. cproj. rewrite Hcn. f_equal. exact Ocnt.
+    - unfold s2, len. cproj. rewrite Hz2. exact Ho2.
+    - unfold s2, len. cproj. rewrite Hz2. exact Hl1.
+    - unfold s2, len. cproj. rewrite Hz2. exact Hct.
+    - split; [exact C2|]. split; [unfold s2; cproj; congruence|].
+      fold mn mx e in Hg, F1, F2, F3.
+      assert (Po : pos (dabs o)) by (apply tab_pos'; exact Onn).
+      apply (dabs_is_clamp_low n _ _ _ mn mx) with (5 := F2) (6 := F3); try exact F1.
+      + apply wf_bmerge; [apply dabs_wf|apply (ci_dabs_pos n s C)|exact Po].
+      + apply pos_bmerge; [apply dabs_wf|apply (ci_dabs_pos n s C)|exact Po].
+      + intros j. rewrite get_bmerge; [|apply dabs_wf|apply (ci_dabs_pos n s C)|apply dabs_wf|exact Po].
+        rewrite (ci_get_dabs n s C). f_equal. apply (get_dabs _ j Io).
+      + exact Hg. }
+  destruct (Z.ltb_spec 0 k) as [Kp|Kz].
+  - destruct (Hcol Kp) as (Y1 & Y2 & Y3).
+    assert (Hb0 : in_bounds s1 0 = true) by (unfold in_bounds; lia). rewrite Hb0.
+    destruct (Z.ltb_spec k cnt) as [Kc|Kc].
+    + assert (Hb1 : in_bounds s1 (minI o + k - offset s1) && in_bounds s1 (maxI o - offset s1) = true)
+        by (unfold in_bounds, k, cnt in *; lia). rewrite Hb1.
+      eexists. split; [reflexivity|]. apply Hfin.
+      * intros j. unfold in_bounds, len in Hb0.
+        rewrite at_add_slice by (rewrite ?zlen_upd, ?Hzr; unfold len, k, cnt in *; lia).
+        rewrite at_upd by lia. rewrite Hrest. fold (dget s1 j). rewrite (HS Kp). unfold clampf.
+        assert (Ek : minI o + k = e) by (unfold k, cnt in *; lia).
+        destruct (Z.ltb_spec j e) as [Q1|Q1]; [|destruct (Z.eqb_spec j e) as [Q2|Q2]].
+        -- destruct (Z.eqb_spec (j - offset s1) 0); [lia|].
+           destruct ((0 <=? j - offset s1 - (minI o + k - offset s1)) && (j - offset s1 - (minI o + k - offset s1) <? cnt - k)) eqn:Q3; [lia|reflexivity].
+        -- subst j. destruct (Z.eqb_spec (e - offset s1) 0); [|lia].
+           destruct ((0 <=? e - offset s1 - (minI o + k - offset s1)) && (e - offset s1 - (minI o + k - offset s1) <? cnt - k)) eqn:Q3; [|lia].
+           rewrite (rsum_split (dget o) mn (e - 1) e) by lia. replace (e - 1 + 1) with e by lia. rewrite rsum_one.
+           replace (minI o + k + (e - offset s1 - (minI o + k - offset s1))) with e by lia. apply wadd_assoc.
+        -- destruct (Z.eqb_spec (j - offset s1) 0); [lia|].
+           destruct ((0 <=? j - offset s1 - (minI o + k - offset s1)) && (j - offset s1 - (minI o + k - offset s1) <? cnt - k)) eqn:Q3.
+           ++ do 2 f_equal. lia.
+           ++ f_equal. symmetry. apply Oout. unfold cnt in Q3. lia.
+      * rewrite zlen_add_slice, zlen_upd. reflexivity.
+    + eexists. split; [reflexivity|]. apply Hfin.
+      * intros j. unfold in_bounds, len in Hb0. rewrite at_upd by lia. fold (dget s1 j). rewrite (HS Kp). unfold clampf.
+        assert (Ek : maxI o < e) by (unfold k, cnt in *; lia).
+        destruct (Z.ltb_spec j e) as [Q1|Q1]; [|destruct (Z.eqb_spec j e) as [Q2|Q2]].
+        -- destruct (Z.eqb_spec (j - offset s1) 0); [lia|now rewrite wadd_0_r].
+        -- subst j. destruct (Z.eqb_spec (e - offset s1) 0); [|lia].
+           rewrite (rsum_split (dget o) mn (e - 1) e) by lia. replace (e - 1 + 1) with e by lia. rewrite rsum_one.
+           rewrite (Oout e) by lia. now rewrite wadd_0_r.
+        -- destruct (Z.eqb_spec (j - offset s1) 0); [lia|]. rewrite (Oout j) by lia. now rewrite wadd_0_r.
+      * apply zlen_upd.
+  - assert (K0 : k = 0) by lia.
+    destruct (Z.ltb_spec k cnt) as [Kc|Kc]; [|unfold cnt in Kc; lia].
+    assert (Hb1 : in_bounds s1 (minI o + k - offset s1) && in_bounds s1 (maxI o - offset s1) = true)
+      by (unfold in_bounds, k, cnt in *; lia). rewrite Hb1.
+    eexists. split; [reflexivity|]. apply Hfin.
+    + intros j. rewrite at_add_slice by (rewrite ?Hzr; unfold len, k, cnt in *; lia).
+      rewrite Hrest. fold (dget s1 j). f_equal.
+      rewrite (clampf_id (dget o) mn e (minI o)) by (try (intros; apply Oout); unfold k, cnt, mn in *; lia).
+      destruct ((0 <=? j - offset s1 - (minI o + k - offset s1)) && (j - offset s1 - (minI o + k - offset s1) <? cnt - k)) eqn:Q3.
+      * f_equal. lia.
+      * symmetry. apply Oout. unfold cnt in Q3. lia.
+    + apply zlen_add_slice.
+Qed.
+End LowMerge.
+
+Lemma foreach_winv o : WInv o -> foreach o = Some (dabs o).
+Proof. intros I. exact (foreach_spec (as_exact o) I). Qed.
+Lemma dabs_pos_winv o : WInv o -> pos (dabs o).
+Proof. intros I. apply tab_pos'. exact (inv_nonneg _ I). Qed.
+Lemma dabs_empty_winv o : WInv o -> count o = w0 -> dabs o = [].
+Proof. intros I. exact (dabs_empty _ I). Qed.
+
+Section LowList.
+Variable grow : Z -> Z.
+Hypothesis grow_ge : forall d, d <= grow d.
+Variable n : Z.
+Hypothesis Hn : 1 <= n.
+
+(* the generic path of MergeWith: a sequence of AddWithCount *)
+Theorem add_list_low l : forall s,
+  CI n s -> lim s = Lowest n -> bins_ok l ->
+  exists s', add_list grow true s l = Some s' /\ CI n s' /\ lim s' = Lowest n /\
+             dabs s' = smerge_list (Lowest n) (dabs s) l.
+Proof.
+  induction l as [|[k w] l IH]; intros s C Hk Hl.
+  - exists s. split; [reflexivity|]. split; [exact C|]. split; [exact Hk|reflexivity].
+  - destruct (Hl k w (or_introl eq_refl)) as [Hki Hw].
+    destruct (add_with_count_low0 grow grow_ge n Hn s k w C Hk Hki Hw) as (s1 & E1 & C1 & K1 & A1).
+    destruct (IH s1 C1 K1) as (s' & E' & C' & K' & A'). { intros k' w' Hi. apply Hl. now right. }
+    exists s'. rewrite add_list_cons. cbn [fst snd]. rewrite E1.
+    split; [exact E'|]. split; [exact C'|]. split; [exact K'|].
+    rewrite A', A1. reflexivity.
+Qed.
+
+Lemma smerge_list_low_fix s l :
+  CI n s -> nonneg l -> smerge_list (Lowest n) (dabs s) l = clamp_low n (bmerge_list (dabs s) l).
+Proof.
+  intros C Hl. rewrite <- (clamp_low_fix n s Hn C) at 1.
+  apply (smerge_list_norm (Lowest n) (dabs s) l); [exact Hn|apply dabs_wf|apply (ci_dabs_pos n s C)|exact Hl].
+Qed.
+
+(* VI: MergeWith, any member of the dense family as the argument *)
+Theorem merge_dense_low s o :
+  CI n s -> lim s = Lowest n -> WInv o ->
+  exists s', merge_dense grow true s o = Some s' /\ CI n s' /\ lim s' = Lowest n /\
+             dabs s' = norm (Lowest n) (bmerge (dabs s) (dabs o)).
+Proof.
+  intros C Hk Io. unfold merge_dense. cbn [norm]. destruct (is_empty o) eqn:E.
+  - apply is_empty_true in E. exists s. rewrite (dabs_empty_winv o Io E), bmerge_nil_r.
+    split; [reflexivity|]. split; [exact C|]. split; [exact Hk|]. symmetry. now apply clamp_low_fix.
+  - apply is_empty_false in E.
+    assert (Hfb : exists s', match foreach o with None => None | Some l => add_list grow true s l end = Some s' /\
+                    CI n s' /\ lim s' = Lowest n /\ dabs s' = clamp_low n (bmerge (dabs s) (dabs o))).
+    { rewrite (foreach_winv o Io).
+      destruct (add_list_low (dabs o) s C Hk (dabs_bins_ok o Io)) as (s' & E' & C' & K' & A').
+      exists s'. split; [exact E'|]. split; [exact C'|]. split; [exact K'|].
+      rewrite A'. apply smerge_list_low_fix; [exact C|]. apply nonneg_of_bins_ok. now apply dabs_bins_ok. }
+    rewrite Hk. destruct (lim o) as [|m|m]; cbn [same_type]; try exact Hfb.
+    now apply merge_same_low.
+Qed.
+Corollary merge_dense_low_stepwise s o :
+  CI n s -> lim s = Lowest n -> WInv o ->
+  exists s', merge_dense grow true s o = Some s' /\ CI n s' /\ lim s' = Lowest n /\
+             dabs s' = smerge_list (Lowest n) (dabs s) (dabs o).
+Proof.
+  intros C Hk Io. destruct (merge_dense_low s o C Hk Io) as (s' & E & C' & K' & A').
+  exists s'. split; [exact E|]. split; [exact C'|]. split; [exact K'|]. rewrite A'. cbn [norm].
+  symmetry. apply smerge_list_low_fix; [exact C|]. apply nonneg_of_bins_ok. now apply dabs_bins_ok.
+Qed.
+End LowList.
+
+(* V: the bounds, for every state satisfying the invariant (hence every reachable state) *)
+Theorem ci_bounds n s :
+  CI n s ->
+  Z.of_nat (length (bins s)) <= n /\ (count s <> w0 -> maxI s - minI s + 1 <= n) /\
+  Z.of_nat (length (dabs s)) <= Z.max 0 n /\ total (dabs s) = count s.
+Proof.
+  intros C. split; [exact (ci_len n s C)|]. split; [apply (ci_span n s C)|]. split.
+  - destruct (w_eq_dec (count s) w0) as [E|N].
+    + rewrite (ci_dabs_empty n s C E). cbn [length]. lia.
+    + pose proof (ci_span n s C N) as Sp.
+      pose proof (length_bound (minI s) (maxI s) (dabs s) (dabs_wf s)) as H.
+      assert (Hr : forall j, get (dabs s) j <> w0 -> minI s <= j <= maxI s).
+      { intros j Hj. rewrite (ci_get_dabs n s C) in Hj.
+        destruct (Z_lt_dec j (minI s)); [exfalso; apply Hj; apply (ci_out n s C); lia|].
+        destruct (Z_lt_dec (maxI s) j); [exfalso; apply Hj; apply (ci_out n s C); lia|]. lia. }
+      specialize (H Hr). lia.
+  - symmetry. exact (total_d_spec (as_exact s) (ci_inv n s C)).
+Qed.
